@@ -155,7 +155,8 @@ fn c01_family<S: Sch>(t: Tier, seed: u64, out: &mut Vec<Entry>) {
     }
     if name == "ligero-uni" {
         // a coefficient matrix with more than two rows (a low security parameter makes few column openings suffice)
-        for n in if quick { vec![64usize] } else { vec![64usize, 256] } {
+        // (lengths that are and are not multiples of the row count: 64, 65, 67 give 4 rows, 256/257 give 8)
+        for n in if quick { vec![64usize, 65, 67] } else { vec![64usize, 65, 66, 67, 256, 257, 259] } {
             let mut c = mk(vec![PolySpec::new(n).conc()], 0);
             c.sz = Size::uni(300, 300, 0);
             c.sz.ligero = (20, 4, true);
@@ -197,6 +198,11 @@ fn c02_family<S: Sch>(t: Tier, seed: u64, out: &mut Vec<Entry>) {
     add("1p1z-val", mk(vec![PolySpec::new(len)], 0), Mode::Single, Kind::Value(0), false);
     add("2p1z-val@1", mk(vec![PolySpec::new(2), PolySpec::new(2)], 0), Mode::Single, Kind::Value(1), false);
     add("1p2z-batch-val@1", mk(vec![PolySpec::new(2)], 0).points(2, vec![(0, 0), (0, 1)]), Mode::Batch, Kind::Value(1), false);
+    // every position of a batched opening; the two point labels carry independent symbolic points, so that the
+    // shared-point-value case is the solver's to find wherever the code compares points
+    add("1p2z-batch-val@0", mk(vec![PolySpec::new(2)], 0).points(2, vec![(0, 0), (0, 1)]), Mode::Batch, Kind::Value(0), false);
+    add("2p2z-split-batch-val@0", mk(vec![PolySpec::new(2).conc(), PolySpec::new(2).conc()], 0).points(2, vec![(0, 0), (1, 1)]), Mode::Batch, Kind::Value(0), false);
+    add("2p2z-split-batch-val@1", mk(vec![PolySpec::new(2).conc(), PolySpec::new(2).conc()], 0).points(2, vec![(0, 0), (1, 1)]), Mode::Batch, Kind::Value(1), false);
     if S::HIDING && name != "hyrax" {
         let mut c = mk(vec![PolySpec::new(2).hide(1)], 1);
         c.rng_nonzero = true;
@@ -206,7 +212,9 @@ fn c02_family<S: Sch>(t: Tier, seed: u64, out: &mut Vec<Entry>) {
         add("1p1z-bound-val", mk(vec![PolySpec::new(2).bound(1)], 0), Mode::Single, Kind::Value(0), false);
     }
     if !quick {
-        add("2p2z-batch-val@2", mk(vec![PolySpec::new(2), PolySpec::new(2)], 0).points(2, vec![(0, 0), (1, 0), (0, 1), (1, 1)]), Mode::Batch, Kind::Value(2), false);
+        for pos in 0..4usize {
+            add(&format!("2p2z-batch-val@{}", pos), mk(vec![PolySpec::new(2), PolySpec::new(2)], 0).points(2, vec![(0, 0), (1, 0), (0, 1), (1, 1)]), Mode::Batch, Kind::Value(pos), false);
+        }
     }
     // point perturbations (schemes whose challenges do not depend on the point)
     if kzg_like || lincode {
@@ -629,6 +637,11 @@ fn catalogue_inner(prop: &str, t: Tier, seed: u64, out: &mut Vec<Entry>) {
             let mut en = e("eval-qs/2p2z-shared".into(), t, "coefficients of both polynomials, both points", "2 polynomials of 3 coefficients, 4 queries over 3 point labels and 2 points".into(), c16::eval_qs);
             en.funcs = f.clone();
             out.push(en);
+            for k in if t == Tier::Quick { vec![7usize, 8, 10] } else { vec![7usize, 8, 9, 10, 11, 12] } {
+                let mut en = e(format!("succinct/wide-k{}", k), t, "all challenges and the point", format!("k = {} challenges, 2^{} coefficients, against the defining product", k, k), move || c16::succinct_wide(k));
+                en.funcs = f.clone();
+                out.push(en);
+            }
             let kmax = if t == Tier::Quick { 6 } else { 9 };
             for k in 0..=kmax {
                 let mut en = e(format!("succinct/k{}", k), t, "all challenges and the point", format!("k = {} challenges, 2^{} coefficients", k, k), move || c16::succinct(k));
@@ -719,7 +732,26 @@ fn catalogue_inner(prop: &str, t: Tier, seed: u64, out: &mut Vec<Entry>) {
                 c.seed = seed;
                 let c2 = c.clone();
                 let mut en = e("hyrax/plist-short".into(), t, symtxt, format!("{:?}", c.sz), move || c03::hyrax_plist_short(&c2)); en.funcs = f.clone(); out.push(en);
+                let c2 = c.clone();
+                let mut en = e("hyrax/plist-empty".into(), t, symtxt, format!("{:?}", c.sz), move || c03::plist_short::<Hyrax, _>(&c2, true)); en.funcs = f.clone(); out.push(en);
             }
+            macro_rules! plist {
+                ($S:ty, $sz:expr) => {{
+                    for empty in [false, true] {
+                        let mut c = Cfg::new($sz, vec![PolySpec::new(1).conc(), PolySpec::new(1).conc()]);
+                        c.seed = seed;
+                        let c2 = c.clone();
+                        let mut en = e(format!("{}/plist-{}", <$S as Sch>::NAME, if empty { "empty" } else { "short" }), t, "claimed-value error, point, challenges", format!("{:?}; two concrete polynomials, proof list with {} entries", c.sz, if empty { 0 } else { 1 }), move || c03::plist_short::<$S, _>(&c2, empty));
+                        en.funcs = f.clone();
+                        if quick { en.lim.wall_s = 45.0; }
+                        out.push(en);
+                    }
+                }};
+            }
+            plist!(LigeroUni, Size::uni(4, 3, 0));
+            plist!(LigeroMl, Size::mv(2, 1, 0));
+            plist!(Brakedown, Size::mv(2, 1, 0));
+            plist!(BrakedownRec, Size::mv(3, 1, 0));
         }
         "C04" => {
             c04_family::<Marlin>(t, seed, out);
@@ -1217,6 +1249,17 @@ fn catalogue_inner(prop: &str, t: Tier, seed: u64, out: &mut Vec<Entry>) {
                     if quick { en.lim.wall_s = 45.0; en.lim.max_runs = 20; }
                     out.push(en);
                 }
+            }
+            // one opening over polynomials with different codeword lengths (the cap t <= n is active for the short one)
+            for (tag, lens) in [("n4+n33", vec![4usize, 33]), ("n33+n4", vec![33usize, 4]), ("n9+n2+n16", vec![9usize, 2, 16])] {
+                if quick && lens.len() == 3 { continue; }
+                let mut sz = Size::uni(64, 64, 0);
+                sz.ligero = (128, 2, true);
+                let c = mkc(sz, lens.iter().map(|n| PolySpec::new(*n).conc()).collect());
+                let mut en = e(format!("ligero-uni/cols-batch-{}", tag), t, "point, challenges (polynomials concrete-random)", format!("{:?} coefficients in one opening, rho_inv 2, lambda 128", lens), move || c13::cols_count::<LigeroUni>(&c, (1, 2), 128));
+                en.funcs = f.clone();
+                if quick { en.lim.wall_s = 45.0; en.lim.max_runs = 20; }
+                out.push(en);
             }
             // verifier side of "exactly t columns": a proof with fewer columns (v and the well-formedness vector chosen
             // freely) is not accepted for another value
